@@ -180,6 +180,21 @@ def corpus():
     out.append({"nested": {"op": "query", "fields": [F(0, "C", ["list2", "llr", [
         ["row", [["obj", [F(1, "C", ["int", 1])]], ["bad"]]], ["row", [["obj", [F(1, "C", ["err", 0], sh="i")]]]]]])]},
         "limit": 40, "seed": 7})
+    # resolvers gathering through the runtime API from inside: a generator of plain values only; plain
+    # values ahead of the first deferred one; an iterator; inside a coroutine / pool task
+    for k, (m, kind, entries, wrap) in enumerate([
+            ("S", "gen", [["p", 1], ["p", 2], ["p", 3]], ""),
+            ("C", "gen", [["p", 1], ["p", 2], ["a", 3], ["p", 4], ["s", 5]], "m"),
+            ("P", "iter", [["p", 7], ["s", 1], ["w", 2], ["m", 3]], "w"),
+            ("D", "tuple", [["a", 1], ["p", 2]], "")]):
+        p = {"op": "query", "fields": [F(0, m, ["fan", kind, entries, wrap]), F(1, "C", ["int", 1])]}
+        out.append({"nested": p, "limit": 24, "seed": 11 + k, "configs": list(FAN_CONFIGS), "expect": fan_expected(p)})
+    # meta fields selected at the root of a wide operation, introspection disabled / enabled
+    wide = [F(k, "C" if k in (2, 5) else ("S", "P", "A", "S")[k % 4], ["int", k + 1]) for k in range(8)]
+    for k, (op, meta, ni) in enumerate([("query", [[2, "__typename"], [6, "__schema"]], True), ("query", [[0, "__schema"], [8, "__typename"]], False),
+                                        ("mutation", [[4, "__typename"]], True)]):
+        out.extend(_cases_for({"op": op, "fields": wide, "meta": meta, "nointro": ni}, 24, 4, 40 + k,
+                              configs=("bexec", "brt", "aio", "pool", "prom")))
     return out
 
 
@@ -251,6 +266,41 @@ def nested_programs(rng, quick):
     return out
 
 
+FAN_CONFIGS = ("bexec", "brt", "aio", "aiot", "pool", "prom")
+
+
+def fan_programs(rng, quick):
+    """resolvers that fan out through the runtime API themselves (runtime.submit / map_value /
+    ensure_wrapped, gathered with runtime.gather_values over a generator, an iterator, a list or a
+    tuple), mixing plain and deferred entries"""
+    I = lambda z: ["int", z]  # noqa
+    out = []
+    for j in range(10 if quick else 120):
+        n = rng.randint(0, 4)
+        fams = [["p"], ["p", "p", "s", "a"], ["p", "s", "a", "w", "m"], ["s", "a"]][j % 4]
+        entries = [[rng.choice(fams), rng.randrange(50)] for _ in range(n)]
+        kind = ["gen", "iter", "list", "tuple", "gen"][j % 5]
+        wrap = ["", "m", "w", "mw"][(j // 2) % 4]
+        fan = F(1, ["S", "P", "C", "D"][j % 4], ["fan", kind, entries, wrap], nn=(j % 3 == 0))
+        other = F(2, rng.choice(["C", "S"]), I(2))
+        fields = [F(0, rng.choice(["S", "C"]), ["obj", [fan, other]]), F(3, "C", I(3))] if j % 3 == 1 else [fan, other]
+        out.append({"op": "mutation" if j % 4 == 3 else "query", "fields": fields})
+    return out
+
+
+def fan_expected(prog):
+    """the response data (sp._data form) of a program made of int / obj / fan fields"""
+    def val(f):
+        b = f["b"]
+        return b[1] if b[0] == "int" else {"l": sp.fan_value(b)} if b[0] == "fan" else {"o": [[g["k"], val(g)] for g in b[1]]}
+    return {"o": [[f["k"], val(f)] for f in prog["fields"]]}
+
+
+def fan_cases(rng, quick):
+    return [{"nested": p, "limit": 12 if quick else 60, "seed": rng.randrange(1 << 30), "configs": list(FAN_CONFIGS),
+             "expect": fan_expected(p)} for p in fan_programs(rng, quick)]
+
+
 def nested_cases(rng, quick):
     return [{"nested": p, "limit": 40 if quick else 150, "seed": rng.randrange(1 << 30)} for p in nested_programs(rng, quick)]
 
@@ -258,7 +308,7 @@ def nested_cases(rng, quick):
 def run_nested(case):
     prog = case["nested"]
     by = {}
-    for cfg in NESTED_CONFIGS:
+    for cfg in case.get("configs", NESTED_CONFIGS):
         if cfg in ("bexec", "brt"):
             by[cfg] = [sp.run_blocking(prog, cfg)]
         else:
@@ -311,6 +361,9 @@ def nested_checks(case, obs, serial_violation=None):
                 out.append(("completes-once-all-resolvers-completed: result or inner future left pending (%s)" % cfg, None))
             elif serial_violation is not None and prog["op"] == "mutation" and serial_violation(prog, r.get("events", [])):
                 out.append(("later top-level field invoked before every resolver started under the earlier one returned (%s)" % cfg, None))
+            elif "expect" in case and (r.get("data") != case["expect"] or r.get("errors") or "fail" in r or "fail_other" in r):
+                out.append(("values gathered through the runtime API from inside a resolver: response differs from the "
+                            "value the resolver stands for (%s)" % cfg, None))
             if out:
                 return out[:1]
     if len({_response(r) for runs in by.values() for r in runs}) > 1:
@@ -331,7 +384,7 @@ def generate(rng, tier):
     quick = tier == "quick"
     SHARD = 40 if quick else 10
     limit, samples = (720, 30) if quick else (5040, 200)
-    cases = _comb_cases(rng, quick) + nested_cases(rng, quick)
+    cases = _comb_cases(rng, quick) + nested_cases(rng, quick) + fan_cases(rng, quick)
     plan = []
     if quick:
         plan += [dict(n=24, min_tasks=2, max_tasks=5, p_exn=0.0), dict(n=14, min_tasks=2, max_tasks=5, p_exn=0.12),
@@ -355,6 +408,8 @@ def generate(rng, tier):
             p["layout"] = rng.choice(["distinct", "distinct", "shared", "mutnested"])
             if rng.random() < 0.3:
                 p = gen_sched.add_render(rng, p)
+            if rng.random() < 0.2:
+                gen_sched.add_meta(rng, p)
             cases.extend(_cases_for(p, limit, samples, rng.randrange(1 << 30)))
             if not quick and rng.random() < 0.5:
                 cases.append({"prog": p, "config": "threads", "limit": 0, "samples": 25, "seed": rng.randrange(1 << 30)})
